@@ -1430,3 +1430,100 @@ func (p *Prog) callsFieldFunc(fn *ssa.Function, fk string, depth int, seen map[*
 	})
 	return found
 }
+
+// ruleCounterDirection: the repository names its traffic counters rx…/tx… and the accessors Rx…/Tx…; the byte counts
+// a transport or codec reports are only right if the receive side feeds and reports the rx counters and the send side
+// the tx counters. (a) every method whose name starts with Rx/Tx touches only counter fields of its own direction;
+// (b) an update of an rx…/tx… field located in a function named read…/decode…/receive… resp. write…/encode…/send…
+// agrees with that direction; (c) every rx…/tx… counter field that is reported is updated somewhere.
+func ruleCounterDirection(r *Run, id string, pkgs ...string) {
+	r.Begin(id, "counter direction: in "+strings.Join(pkgs, ", ")+" the accessors Rx…/Tx… read only rx…/tx… fields of their own direction, updates of rx…/tx… fields inside read…/decode…/receive… resp. write…/encode…/send… functions agree with the function's direction, and every reported counter field has an update site", 4)
+	p := r.P
+	inPkgs := func(fn *ssa.Function) bool {
+		for _, pk := range pkgs {
+			if fnPkgPath(fn) == modPath+pk || (strings.HasSuffix(pk, "/") && strings.HasPrefix(fnPkgPath(fn), modPath+pk)) {
+				return true
+			}
+		}
+		return false
+	}
+	reported := map[string]string{} // field key -> accessor
+	updated := map[string]int{}
+	for _, fn := range p.Funcs {
+		if !inPkgs(fn) || fn.Blocks == nil {
+			continue
+		}
+		top := topFunc(fn)
+		fdir := ""
+		if o := top.Object(); o != nil {
+			fdir = dirOfFunc(canon(o))
+		}
+		isAccessor := fn.Parent() == nil && fn.Signature.Recv() != nil && dirOfName(top.Name()) != "" && top.Object() != nil && top.Object().Exported()
+		name := fnName(fn)
+		k := 0
+		allInstrs(fn, func(ins ssa.Instruction) {
+			fa, ok := ins.(*ssa.FieldAddr)
+			if !ok {
+				return
+			}
+			f := fieldOf(fa.X.Type(), fa.Field)
+			owner := namedOf(fa.X.Type())
+			if f == nil || owner == nil {
+				return
+			}
+			d := dirOfName(canon(f))
+			if d == "" {
+				return
+			}
+			if _, isChan := f.Type().Underlying().(*types.Chan); isChan {
+				return // rx/tx channels of the in-memory pipe are not counters
+			}
+			fk := fieldKey(owner, f)
+			// is this access an update (atomic.Add*, or a method call on the counter object named Add/Inc)?
+			isUpdate := false
+			var visit func(v ssa.Value, depth int)
+			visit = func(v ssa.Value, depth int) {
+				if v.Referrers() == nil || depth > 2 {
+					return
+				}
+				for _, ref := range *v.Referrers() {
+					switch x := ref.(type) {
+					case *ssa.Call:
+						n := callName(x)
+						if strings.HasPrefix(n, "sync/atomic.Add") || strings.HasSuffix(n, ".Add") || strings.HasSuffix(n, ".Inc") {
+							isUpdate = true
+						}
+					case *ssa.UnOp:
+						visit(x, depth+1)
+					case *ssa.Store:
+						if bo, isBo := x.Val.(*ssa.BinOp); isBo && x.Addr == v && bo.Op == token.ADD {
+							isUpdate = true // x.f += n
+						}
+					}
+				}
+			}
+			visit(fa, 0)
+			if isAccessor {
+				k++
+				reported[fk] = name
+				r.Check(fmt.Sprintf("%s reads %s", name, fk), d == dirOfName(top.Name()), posOf(p, fa), name, fmt.Sprintf("accessor of direction %s touches the %s counter %s", dirOfName(top.Name()), d, fk))
+				return
+			}
+			if isUpdate {
+				updated[fk]++
+				if fdir != "" {
+					k++
+					r.Check(fmt.Sprintf("%s updates %s #%d", name, fk, k), d == fdir, posOf(p, fa), name, fmt.Sprintf("a %s-side function updates the %s counter %s", fdir, d, fk))
+				}
+			}
+		})
+	}
+	var keys []string
+	for fk := range reported {
+		keys = append(keys, fk)
+	}
+	sort.Strings(keys)
+	for _, fk := range keys {
+		r.Check("counter "+fk+" is updated", updated[fk] > 0, "", reported[fk], fmt.Sprintf("%d update site(s) of the counter reported by %s", updated[fk], reported[fk]))
+	}
+}
